@@ -16,6 +16,9 @@ fi
 if ! go build -tags verif -o "$w/bin-c06" ./harness/c06 2> "$w/build3.log"; then
   cat "$w/build3.log" >&2; echo "TOOL-ERROR: build failed" >&2; exit 2
 fi
+if ! go build -race -gcflags=all=-d=checkptr=0 -tags verif -o "$w/bin-race" ./harness/c04 2> "$w/build5.log"; then
+  cat "$w/build5.log" >&2; echo "TOOL-ERROR: race build failed" >&2; exit 2
+fi
 [ "${1:-}" = "--warm" ] && exit 0
 { flock -u 9 && exec 9>&-; } 2>/dev/null  # the build is done: release the shared lock on /repo's working tree (.work/repo.lock)
-VERIF_BIN_C03="$w/bin-c03" VERIF_BIN_C05="$w/bin-c05" VERIF_BIN_C06="$w/bin-c06" exec "$w/bin" "$@"
+VERIF_BIN_C03="$w/bin-c03" VERIF_BIN_C05="$w/bin-c05" VERIF_BIN_C06="$w/bin-c06" VERIF_C04_RACE="$w/bin-race" exec "$w/bin" "$@"
